@@ -10,6 +10,7 @@ import (
 	"io"
 	"net"
 	"time"
+	"verifharness/internal/tscale"
 
 	"github.com/basecomplextech/baselibrary/alloc"
 	"github.com/basecomplextech/baselibrary/bin"
@@ -53,7 +54,7 @@ func Wrap(c net.Conn) *Peer { return &Peer{C: c, R: bufio.NewReader(c)} }
 func (p *Peer) Close() { p.C.Close() }
 
 func (p *Peer) WriteRaw(b []byte) error {
-	p.C.SetWriteDeadline(time.Now().Add(5 * time.Second))
+	p.C.SetWriteDeadline(time.Now().Add(tscale.D(5 * time.Second)))
 	_, err := p.C.Write(b)
 	return err
 }
@@ -146,14 +147,14 @@ func (p *Peer) HandshakeClient(lz4 bool) (Frame, error) {
 	if err := p.WriteFrame(req.Unwrap().Raw()); err != nil {
 		return Frame{}, err
 	}
-	line, err := p.ReadLine(5 * time.Second)
+	line, err := p.ReadLine(tscale.D(5 * time.Second))
 	if err != nil {
 		return Frame{}, err
 	}
 	if line != ProtocolLine {
 		return Frame{}, fmt.Errorf("peer: protocol line %q", line)
 	}
-	return p.ReadFrame(5 * time.Second)
+	return p.ReadFrame(tscale.D(5 * time.Second))
 }
 
 func raw(m pmpx.Message, err error) []byte {
